@@ -209,11 +209,15 @@ class PyExec:
         self.env = env
         self.fname = fname
         ret = None
-        for st in f.body:
-            r = self.stmt(st)
-            if r is not None:
-                ret = r[0]
-                break
+        try:
+            for st in f.body:
+                r = self.stmt(st)
+                if r is not None:
+                    ret = r[0]
+                    break
+        except (TypeError, KeyError, AttributeError, IndexError, ValueError, z3.Z3Exception) as e:
+            # a construct of the emitted code that this executor does not model: inconclusive, never success
+            raise Unsupported(f"executor cannot evaluate a statement of {fname}: {type(e).__name__}: {e}")
         return ret
 
     def stmt(self, st):
@@ -273,6 +277,8 @@ class PyExec:
             idx += arr.length
         if val.vec and not arr.batched:
             raise ArtefactError("ValueError", "setting an array element with a sequence (vector into 1-D slot)")
+        if getattr(arr, "bad_cols", None) is not None and (val.vec or self.batched):
+            raise ArtefactError("ValueError", f"could not broadcast input array from shape ({self.N},) into shape ({arr.bad_cols},)")
         if arr.batched and not val.vec:
             val = Num([val.cols[0]] * self.N, True)
         arr.slots[idx] = val
@@ -497,6 +503,14 @@ class PyExec:
             tag = fn[0]
             if tag == "builtin":
                 if fn[1] == "len":
+                    if isinstance(args[0], Arr):
+                        if args[0].length is None:
+                            raise Unsupported("len of an array of unknown length")
+                        return args[0].length
+                    if isinstance(args[0], Num):
+                        if not args[0].vec:
+                            raise ArtefactError("TypeError", "len() of a 0-d value")
+                        return self.N
                     return len(args[0])
                 if fn[1] == "abs":
                     return self.lift(c.abs, args[0])
@@ -594,6 +608,9 @@ class PyExec:
             else:
                 raise Unsupported(f"zeros shape {shape!r}")
             out = Arr({}, name="values", batched=batched, length=n)
+            if batched and isinstance(shape, tuple) and isinstance(shape[1], int) and shape[1] != self.N:
+                # second dimension is not the batch size: storing a column vector cannot broadcast
+                out.bad_cols = shape[1]
             zero = Num([RV(0)] * (self.N if batched else 1), batched)
             for j in range(n):
                 out.slots[j] = zero
